@@ -171,6 +171,25 @@ func (ex *Explorer) siteBudget(label string) bool {
 	return ex.siteCands[label] <= 3
 }
 
+func (ex *Explorer) siteBudgetN(key string, n int) bool {
+	ex.mu.Lock()
+	defer ex.mu.Unlock()
+	if ex.siteCands == nil {
+		ex.siteCands = map[string]int{}
+	}
+	ex.siteCands[key]++
+	return ex.siteCands[key] <= n
+}
+
+func choiceKey(ch map[string]int) string {
+	var ks []string
+	for k, v := range ch {
+		ks = append(ks, fmt.Sprintf("%s=%d", k, v))
+	}
+	sort.Strings(ks)
+	return strings.Join(ks, ",")
+}
+
 func (ex *Explorer) noteEncoded(fn *ssa.Function) {
 	ex.mu.Lock()
 	ex.encoded[fn.String()] = true
@@ -694,7 +713,9 @@ func (p *Path) assertObligKnown(cond *Term, label string, known *Term, finding s
 			// reproduce natively: they get their own budget so that deterministic ones are not starved
 			bkey += "#schedule-dependent"
 		}
-		if p.ex.siteBudget(bkey) {
+		// one search per distinct vector of harness choices, at most 6 per assertion
+		ckey := bkey + "#" + choiceKey(p.choices)
+		if p.ex.siteBudgetN(ckey, 1) && p.ex.siteBudgetN(bkey, 6) {
 			p.refineAndRecord(ob, neg)
 		} else {
 			ob.Status = "violated-unrefined"
